@@ -825,12 +825,29 @@ func (ex *Exec) builtin(fr *Frame, st *State, bi *ssa.Builtin, cc *ssa.CallCommo
 				off := ts.SelectField(ex.tm.slice, 1, dv.T)
 				ln := ts.SelectField(ex.tm.slice, 2, dv.T)
 				na := ts.Fresh("copied", SArray(SInt, es))
-				// only indices inside the destination window change
 				j := ts.BoundVar("j", SInt)
+				ex.arrIs(arr, st0.Elem())
+				if sv, ok := args[1].(TV); ok && sv.T.Sort.Name == "Slice" {
+					// copy between slices of one element type: min(len) elements
+					// move, as if read before anything was written (memmove)
+					sarr := ts.SelectField(ex.tm.slice, 0, sv.T)
+					soff := ts.SelectField(ex.tm.slice, 1, sv.T)
+					sln := ts.SelectField(ex.tm.slice, 2, sv.T)
+					ex.arrIs(sarr, st0.Elem())
+					n := ts.Ite(ts.Lt(sln, ln), sln, ln)
+					ex.assume(st.PC, ts.Forall([]*Term{j}, ts.And(
+						ts.Implies(ts.Or(ts.Lt(j, off), ts.Ge(j, ts.Add(off, n))),
+							ts.Eq(ts.Select(na, j), ts.Select(ts.Select(el, arr), j))),
+						ts.Implies(ts.And(ts.Le(off, j), ts.Lt(j, ts.Add(off, n))),
+							ts.Eq(ts.Select(na, j), ts.Select(ts.Select(el, sarr), ts.Add(soff, ts.Sub(j, off))))))))
+					ex.heapSet(st, key, ts.Store(el, arr, na))
+					return TV{n}
+				}
+				// copy from a string: only indices inside the destination window change
 				ex.assume(st.PC, ts.Forall([]*Term{j}, ts.Implies(ts.Or(ts.Lt(j, off), ts.Ge(j, ts.Add(off, ln))),
 					ts.Eq(ts.Select(na, j), ts.Select(ts.Select(el, arr), j)))))
 				ex.heapSet(st, key, ts.Store(el, arr, na))
-				ex.note("copy(): copied contents are not tracked")
+				ex.note("copy(): bytes copied from a string are not tracked")
 			}
 		}
 		r := ex.fresh(st, "copy", rt)
@@ -1141,6 +1158,18 @@ func (ex *Exec) enterLoop(fr *Frame, li *loopInfo, st *State) {
 				label = fmt.Sprintf("%d", i+1)
 			}
 			ex.oblige("inv-entry", fmt.Sprintf("loop%d:%s", li.index, label), li.head.Instrs[0].Pos(), inv.Props, st, c)
+		}
+		for i, a := range spec.EntryAsserts {
+			c, err := ctx.evalBool(a.Expr)
+			if err != nil {
+				ex.contractProblem("%s: loop %d entry: %v", a.Pos, li.index, err)
+				continue
+			}
+			label := a.Label
+			if label == "" {
+				label = fmt.Sprintf("%d", i+1)
+			}
+			ex.oblige("assert@loop-entry", fmt.Sprintf("loop%d:%s", li.index, label), li.head.Instrs[0].Pos(), a.Props, st, c)
 		}
 	}
 	// havoc what the body may write
